@@ -338,7 +338,7 @@ func OpenFile(name string, flag int, perm FileMode) (*File, error) {
 		w.Emit(simrt.Event{Kind: simrt.EvTruncate, Path: rel, N: 0})
 	}
 	sf := &File{f: f, w: w, rel: rel, app: flag&os.O_APPEND != 0}
-	sf.hid = w.HandleOpened(rel)
+	sf.hid = w.HandleOpened(rel, func() { _ = f.Close() })
 	w.Emit(simrt.Event{Kind: simrt.EvOpen, Path: rel})
 	return sf, nil
 }
